@@ -281,8 +281,19 @@ CLAIMED['C11'] = dict(
          'first loop of restore_placements IS a run of ORestore operations, one per placement node '
          '(C11_restore_is_a_run), so the rebuilt cell is a reachable state of the scheduler model when the cell before '
          'the restore is (C11_rebuilt_cell_reachable) and the end-of-cycle theorems apply to the first cycle after a '
-         'fail-over (C11_first_cycle_after_failover). Left to the oracle on the real load_model(): '
-         'load_servers / load_apps / load_identity_groups before the restore.',
+         'fail-over (C11_first_cycle_after_failover). The whole of load_model (third session, sub-agent, '
+         'Master/LoadModel.v + Props/C11Load.v, 13 theorems): from a snapshot of the store (buckets, servers with '
+         'presence and recorded state, allocations, instances with their manifests, identity groups, placement nodes) '
+         'to a list of operations of the scheduler model; C11M_load_model_is_a_run (the per-record loader models '
+         'followed by restore_placements equal run init (load_model_ops st)), C11M_loaded_cell_reachable / _Good (the '
+         'cell a starting master builds is reachable from the EMPTY cell - no hypothesis on an earlier in-memory '
+         'state), C11M_store_conditions (side conditions checkable on the snapshot: distinct names, parsable vectors, '
+         'each instance under at most one placement node, an identity recorded exactly for group members, no '
+         '(group, identity) recorded twice), C11M_first_cycle_identities / _new_assignment. Correspondence stage: the '
+         'canonical dump of the real Master.cell right after load_model() against the dump of the model run, on '
+         'E-master restarts and directly generated stores (harness/props/c11load.py). Inputs of that model rather '
+         'than modelled: the fnmatch decisions of find_assignment / _is_blacklisted, the valid_until that Partition.add '
+         'assigns, the clock.',
     note=MASTER_NOTE + ' Server.restore/put answers are taken from the implementation in the correspondence and from '
          'Sched/Tree.v in RestoreSchedP.v; the oracle skips over-committed servers and doubly recorded instances.',
     technique='Rocq proof (frame lemmas over Sched primitives, fold over a server\'s nodes) + oracle and '
